@@ -62,6 +62,9 @@ func gen(r *sim.Rng, tier string) *sim.Case {
 		}
 		if heavy && r.Pct(12) {
 			cnt := []int{4095, 4096, 4097, 4098, 5000, 300}[r.N(6)]
+			if r.Pct(25) {
+				cnt = r.Range(1, 6000)
+			}
 			step := []int{1, 1, 2, 3, 15}[r.N(5)]
 			if step*cnt > 1<<16 {
 				step = 1
